@@ -136,6 +136,17 @@ func SetMethodT(
 	)] = methodT
 }
 
+// GetOwnMethodT returns the method a class declares itself (no ancestors,
+// no fallback frames), or nil.
+func GetOwnMethodT(frame string, class string, method string, isStatic bool) *T {
+	switch isStatic {
+	case true:
+		return TFrame[classMethodTFrameKey(frame, class, method, false)]
+	default:
+		return TFrame[methodTFrameKey(frame, class, method, false)]
+	}
+}
+
 func getParentMethodT(
 	frame string,
 	class string,
